@@ -647,3 +647,33 @@ func ScriptF2(nextID *int) History {
 	}
 	return h
 }
+
+// ScriptReinvestDry: corpus history — rewards bucket re-invested into the pool (RewardsDistribute=false) with provider
+// units 4:1:1 and a bucket of 6e18: the three 18-digit shares round up, the bucket runs dry on the last provider and
+// SubtractFromRewardsBucket fails for it (only logged).
+func ScriptReinvestDry(nextID *int) History {
+	e := env.New(env.Opts{NUsers: 4, Tokens: []string{"ceth"}})
+	h := History{ID: 9022, Env: e, Desc: map[string]interface{}{"corpus": "re-invested bucket runs dry", "tokens": []string{"ceth"}, "rewards_to_wallet": false, "units": "4:1:1", "bucket": "6e18"}}
+	e.BlockStep = 25 * time.Minute
+	e.BeginBlock()
+	mustOK(e.UpdateRewardsParams(0, 0, 0, "hour", false), "rewards params")
+	tid := e.DenomID["ceth"]
+	asset := clptypes.NewAsset("ceth")
+	id := func(a chain.Account) int64 { return e.AcctID[a.Addr.String()] }
+	n4 := new(big.Int).Mul(big.NewInt(4), chain.E(18))
+	n1 := chain.E(18)
+	m1 := clptypes.NewMsgCreatePool(e.Users[0].Addr, asset, env.U(n4), env.U(n4))
+	recTx(&h, nextID, 0, e.Users[0], Msg{Tag: 1, Signer: id(e.Users[0]), A: tid, X: n4, Y: n4}, &m1)
+	for i, u := range e.Users[1:3] {
+		m2 := clptypes.NewMsgAddLiquidity(u.Addr, asset, env.U(n1), env.U(n1))
+		recTx(&h, nextID, 1+i, u, Msg{Tag: 2, Signer: id(u), A: tid, X: n1, Y: n1}, &m2)
+	}
+	six := new(big.Int).Mul(big.NewInt(6), chain.E(18))
+	coins := sdk.NewCoins(sdk.NewCoin("ceth", sdk.NewIntFromBigInt(six)))
+	m4 := clptypes.NewMsgAddLiquidityToRewardsBucketRequest(e.Users[3].Addr.String(), coins)
+	recTx(&h, nextID, 3, e.Users[3], Msg{Tag: 9, Signer: id(e.Users[3]), Coins: [][2]*big.Int{{big.NewInt(tid), six}}}, m4)
+	for i := 0; i < 4; i++ {
+		recBlock(&h, nextID, 4+i)
+	}
+	return h
+}
